@@ -232,7 +232,7 @@ mod ir_builder {
                 }
 
             rule unary_op_kind() -> UnaryOpKind
-                = "not" _ { UnaryOpKind::Not }
+                = "not" !id_char() _ { UnaryOpKind::Not }
 
             rule binary_op_kind() -> BinaryOpKind
                 = "add" _ { BinaryOpKind::Add }
@@ -350,12 +350,12 @@ mod ir_builder {
                 }
 
             rule op_branch() -> IrAstOperation
-                = "br" _ to_block:id() "(" _ args:(id() ** comma()) ")" _ {
+                = "br" !id_char() _ to_block:id() "(" _ args:(id() ** comma()) ")" _ {
                     IrAstOperation::Br(to_block, args)
                 }
 
             rule op_call() -> IrAstOperation
-                = "call" _ callee:id() "(" _ args:(id() ** comma()) ")" _ {
+                = "call" !id_char() _ callee:id() "(" _ args:(id() ** comma()) ")" _ {
                     IrAstOperation::Call(callee, args)
                 }
 
@@ -429,7 +429,7 @@ mod ir_builder {
                 }
 
             rule op_load() -> IrAstOperation
-                = "load" _ src:id() {
+                = "load" !id_char() _ src:id() {
                     IrAstOperation::Load(src)
                 }
 
@@ -468,12 +468,12 @@ mod ir_builder {
                 }
 
             rule op_mem_clear_val() -> IrAstOperation
-            = "mem_clear_val" _ dst_name:id() {
+            = "mem_clear_val" !id_char() _ dst_name:id() {
                 IrAstOperation::MemClearVal(dst_name)
             }
 
             rule op_nop() -> IrAstOperation
-                = "nop" _ {
+                = "nop" !id_char() _ {
                     IrAstOperation::Nop
                 }
 
@@ -488,17 +488,17 @@ mod ir_builder {
                 }
 
             rule op_ret() -> IrAstOperation
-                = "ret" _ ty:ast_ty() vn:id() {
+                = "ret" !id_char() _ ty:ast_ty() vn:id() {
                     IrAstOperation::Ret(ty, vn)
                 }
 
             rule op_revert() -> IrAstOperation
-                = "revert" _ vn:id() {
+                = "revert" !id_char() _ vn:id() {
                     IrAstOperation::Revert(vn)
                 }
 
             rule op_jmp_mem() -> IrAstOperation
-                = "jmp_mem" _ {
+                = "jmp_mem" !id_char() _ {
                     IrAstOperation::JmpMem
                 }
 
